@@ -17,7 +17,7 @@ static void make_pool() {
   add(MVal::null());
   add(MVal::boolean(false)); add(MVal::boolean(true));
   // integers: every width edge +-1, both storages where possible
-  static const int ks[] = {0, 1, 7, 8, 15, 16, 31, 32, 53, 63, 64};
+  static const int ks[] = {0, 1, 7, 8, 15, 16, 24, 31, 32, 53, 63, 64};   // 24 and 53: the float and double mantissa widths
   for (int k : ks) for (int d = -1; d <= 1; d++) {
     uint64_t v = (k >= 64 ? 0 : (1ull << k)) + (uint64_t)(int64_t)d;
     if (k == 0 && d < 0) v = 0;
@@ -27,7 +27,7 @@ static void make_pool() {
   }
   add(MVal::uint(42), 0); add(MVal::uint(42), 1); add(MVal::sint(-42), 0);
   // floats / doubles
-  static const double fs[] = {0.0, -0.0, 1.0, -1.0, 0.5, 1.5, 42.0, -42.0, 42.5, 255.0, 256.0, 65536.0, 2147483647.0, 2147483648.0, 4294967295.0, 4294967296.0,
+  static const double fs[] = {0.0, -0.0, 1.0, -1.0, 0.5, 1.5, 42.0, -42.0, 42.5, 255.0, 256.0, 65536.0, 16777215.0, 16777216.0, 16777217.0, 16777218.0, 2147483647.0, 2147483648.0, 4294967295.0, 4294967296.0,
                               9007199254740991.0, 9007199254740992.0, 9007199254740993.0, 9223372036854775807.0, 9223372036854775808.0, 18446744073709551615.0, 1.8446744073709552e19,
                               -9223372036854775808.0, -9223372036854777856.0, 1e-310, 4.9e-324, 1e300, -1e300, 3.4028234663852886e38, 1e-45, 0.1, 0.30000000000000004, 3.14};
   for (double f : fs) { add(MVal::flt(f), 0); if ((double)(float)f == f) add(MVal::flt(f), 1); }
@@ -325,7 +325,7 @@ void vf_run_case(Ctx& c, uint64_t index) {
     }
     scalar_side<unsigned long long>(c, v, m, 18446744073709551615ull, 18446744073709551615.0L, true, "unsigned long long");
     scalar_side<unsigned long long>(c, v, m, 9223372036854775808ull, 9223372036854775808.0L, true, "unsigned long long");
-    for (double x : {0.5, -0.5, 42.5, 1e300, -1e300, 1.8446744073709552e19, 9223372036854775808.0, 3.14}) scalar_side<double>(c, v, m, x, (long double)x, false, "double");
+    for (double x : {0.5, -0.5, 42.5, 1e300, -1e300, 1.8446744073709552e19, 9223372036854775808.0, 3.14, 16777217.0, -16777217.0, 16777219.0, 4294967297.0, 9007199254740993.0}) scalar_side<double>(c, v, m, x, (long double)x, false, "double");
     { Ops ab = ops(v, true), ba = ops(true, v); laws(c, ab, ba, m.k == MVal::Bool ? (m.b ? EQUAL : UNKNOWN) : UNKNOWN, "variant " + describe(m, 60) + " vs bool true"); }
     { Ops ab{v == nullptr, v != nullptr, false, false, false, false}; if (ab.eq != (m.k == MVal::Null)) c.violation("agrees-with-values", "== nullptr disagrees", describe(m, 60)); if (ab.ne == ab.eq) c.violation("law-ne-is-not-eq", "!= nullptr", describe(m, 60)); }
   }
